@@ -34,6 +34,8 @@ func (propC17) Gen(seed uint64, tier string, idx int) *Plan2 {
 	health := []int{0, 12, 120}[r.n(3)]
 	global := []int{0, 0, 60, 6000}[r.n(4)]
 	p.Params["per_ip"], p.Params["burst"], p.Params["health"], p.Params["global"] = perIP, burst, health, global
+	// the background sweep of idle limiters runs in some histories: forgetting a client must never hand it a fresh burst early
+	p.Params["cleanup_ms"] = []int{0, 0, 500, 2000}[r.n(4)]
 	nT := 2 + r.n(5)
 	nIP := 1 + r.n(2)
 	p.Tasks = make([][]Op, nT)
@@ -52,7 +54,7 @@ func (propC17) Gen(seed uint64, tier string, idx int) *Plan2 {
 			}
 		}
 	}
-	p.Sub = fmt.Sprintf("ratelimit/perip=%d/burst=%d/health=%d/global=%d/tasks=%d/ips=%d", perIP, burst, health, global, nT, nIP)
+	p.Sub = fmt.Sprintf("ratelimit/perip=%d/burst=%d/health=%d/global=%d/tasks=%d/ips=%d/cleanup=%v", perIP, burst, health, global, nT, nIP, p.Params["cleanup_ms"])
 	return p
 }
 
@@ -91,7 +93,8 @@ func c17Bound(res *Result2, what string, adm []c17Adm, burst int, perMin int) {
 
 func (propC17) Exec(p *Plan2, res *Result2) {
 	perIP, burst, health, global := p.Int("per_ip", 60), p.Int("burst", 1), p.Int("health", 0), p.Int("global", 0)
-	rl := security.NewRateLimitValidator(config.ServerRateLimits{PerIPRequestsPerMinute: perIP, BurstSize: burst, HealthRequestsPerMinute: health, GlobalRequestsPerMinute: global}, nil, quiet())
+	rl := security.NewRateLimitValidator(config.ServerRateLimits{PerIPRequestsPerMinute: perIP, BurstSize: burst, HealthRequestsPerMinute: health, GlobalRequestsPerMinute: global,
+		CleanupInterval: time.Duration(p.Int("cleanup_ms", 0)) * time.Millisecond}, nil, quiet())
 	defer rl.Stop()
 	t0 := time.Now()
 	s := NewSched(p.Seed, p.Choices, p.MaxSteps)
